@@ -1604,8 +1604,13 @@ func (b *Bitmap) unmarshalPilosaRoaring(data []byte) error {
 
 	// Read key count in bytes sizeof(cookie)+sizeof(flag):(sizeof(cookie)+sizeof(uint32)).
 	keyN := binary.LittleEndian.Uint32(data[3+1 : 8])
-	if uint32(len(data)) < headerBaseSize+keyN*12 {
+	// The sizes are computed in 64 bits: keyN comes from the input and
+	// keyN*12 must not wrap around.
+	if uint64(len(data)) < uint64(headerBaseSize)+uint64(keyN)*12 {
 		return fmt.Errorf("malformed bitmap, key-cardinality not provided for %d containers", int(keyN)/12)
+	}
+	if uint64(len(data)) < uint64(headerBaseSize)+uint64(keyN)*(12+4) {
+		return fmt.Errorf("malformed bitmap, offsets not provided for %d containers", keyN)
 	}
 
 	headerSize := headerBaseSize
@@ -1636,17 +1641,33 @@ func (b *Bitmap) unmarshalPilosaRoaring(data []byte) error {
 		if c == nil {
 			continue
 		}
+		// The container's data must lie inside the input: the slices set
+		// below are unchecked views of data.
 		switch c.typ() {
 		case containerRun:
+			if int(offset)+runCountHeaderSize >= len(data) {
+				return fmt.Errorf("run container out of bounds: off=%d, len=%d", offset, len(data))
+			}
 			runCount := binary.LittleEndian.Uint16(data[offset : offset+runCountHeaderSize])
+			if int(offset)+runCountHeaderSize+int(runCount)*interval16Size > len(data) {
+				return fmt.Errorf("run container out of bounds: off=%d, runs=%d, len=%d", offset, runCount, len(data))
+			}
 			c.setRuns((*[0xFFFFFFF]interval16)(unsafe.Pointer(&data[offset+runCountHeaderSize]))[:runCount:runCount])
 			opsOffset = int(offset) + runCountHeaderSize + len(c.runs())*interval16Size
 		case containerArray:
+			if int(offset)+int(c.N())*2 > len(data) {
+				return fmt.Errorf("array container out of bounds: off=%d, n=%d, len=%d", offset, c.N(), len(data))
+			}
 			c.setArray((*[0xFFFFFFF]uint16)(unsafe.Pointer(&data[offset]))[:c.N():c.N()])
 			opsOffset = int(offset) + len(c.array())*2 // sizeof(uint32)
 		case containerBitmap:
+			if int(offset)+bitmapN*8 > len(data) {
+				return fmt.Errorf("bitmap container out of bounds: off=%d, len=%d", offset, len(data))
+			}
 			c.setBitmap((*[0xFFFFFFF]uint64)(unsafe.Pointer(&data[offset]))[:bitmapN:bitmapN])
 			opsOffset = int(offset) + len(c.bitmap())*8 // sizeof(uint64)
+		default:
+			return fmt.Errorf("unsupported container type %d", c.typ())
 		}
 	}
 
